@@ -374,7 +374,7 @@ class VisaPVVPinBlockMixin(abc.ABC):
 
 def _get_tsp(card_number, key_table_index, pin):
     rightmost_11 = card_number[-12:-1]
-    return f'{rightmost_11}{key_table_index}{pin}'
+    return f'{rightmost_11}{key_table_index}{pin[0:4]}'
 
 
 def calculate_pvv(pin: str, pvv_key: str, key_index: int, card_number: str):
